@@ -53,7 +53,7 @@ def main():
         cmd = re.sub(r"CARGO_TARGET_DIR=\S+", "CARGO_TARGET_DIR=%s" % target, cmd)
         cmd = re.sub(r"\bTMPDIR=\S+", "TMPDIR=%s" % tmpd, cmd)
         cmd = re.sub(r"/tmp/seed/out\d?/\w+", out.rstrip("/"), cmd)
-        assert "/tmp/seed/wt" not in cmd and "/tmp/seed/tgt" not in cmd, cmd
+        assert "/tmp/seed/wt" not in cmd, cmd
         return cmd
     try:
         if "--checks-only" in a:
